@@ -133,6 +133,32 @@ def _case_json(c):
             "ops": [list(o) if isinstance(o, tuple) else o for o in c["ops"]]}
 
 
+def _real_reset(case):
+    c = case
+    try:
+        return G.real_reset_readout(c["kind"], c["bl"], c["comp"], c["inl"], c["fs"], c["postings"], c["ops"])
+    except Exception as e:  # noqa
+        return "harness-exc %r" % (e,)
+
+
+def stream_reset(ctx, cases):
+    """End to end on the real cursor: after any program, reset() re-reads the list a fresh cursor reads."""
+    cases = [c for c in cases if not c["malformed"]]
+    for c, res in zip(cases, ctx.pmap(_real_reset, cases, chunksize=16)):
+        if res is None:
+            continue
+        if isinstance(res, str):
+            raise RuntimeError(res)
+        fresh, again = res
+        nblocks = -(-len(c["postings"]) // c["bl"])
+        ctx.case(("reset", _cfg_text(c), tuple(c["postings"]), tuple(c["ops"])), nontrivial=nblocks > 1)
+        ctx.stat("reset:blocks=%s" % min(6, nblocks))
+        if again != fresh:
+            ctx.violation("W3LeafMatcher.reset:readout-after-reset!=fresh-readout", _case_json(c),
+                          fresh[:40], again[:40] if not isinstance(again, str) else again,
+                          "after a cursor program, reset() must read the posting list from the start again")
+
+
 def stream_codec(ctx, cases):
     plist = [G.lst([G.posting_sexp(c["kind"], p) for p in c["postings"]]) for c in cases]
     lines = []
@@ -405,6 +431,7 @@ def run(ctx):
     cases = [_codec_case(rng) for _ in range(n)]
     cases += [_codec_case(rng, malformed=True) for _ in range(n // 8)]
     stream_codec(ctx, cases)
+    stream_reset(ctx, cases[:ctx.budget(1200, 12000)])
     stream_formats(ctx, ctx.budget(4000, 40000))
     stream_index(ctx, ctx.budget(900, 8000))
     stream_f32(ctx, ctx.budget(600, 4000))
